@@ -121,15 +121,15 @@ def metric_table(dim, rs):
         "wasserstein_1d": ("positive", (), refmetrics.wasserstein_1d), "wasserstein-1d": ("positive", (), refmetrics.wasserstein_1d),
         "kantorovich-1d": ("positive", (), refmetrics.wasserstein_1d), "kantorovich_1d": ("positive", (), refmetrics.wasserstein_1d),
         # law-only (no independent closed-form reference here): symmetry / NaN / identity
-        "spearmanr": ("real", (), None), "circular_kantorovich": ("positive", (), None), "circular_wasserstein": ("positive", (), None),
-        "tsss": ("real", (), None), "true_angular": ("real", (), None),
+        "spearmanr": ("real", (), refmetrics.spearmanr), "circular_kantorovich": ("positive", (), None), "circular_wasserstein": ("positive", (), None),
+        "tsss": ("real", (), None), "true_angular": ("real", (), refmetrics.true_angular_similarity),
     }
     return T
 
 
 TOL = {"hellinger": (2e-3, 1e-3), "correlation": (2e-4, 1e-3), "cosine": (2e-4, 1e-3), "mahalanobis": (1e-3, 1e-3),
        "jensen-shannon": (1e-4, 1e-3), "jensen_shannon": (1e-4, 1e-3), "symmetric-kl": (1e-3, 2e-3), "symmetric_kl": (1e-3, 2e-3),
-       "symmetric_kullback_liebler": (1e-3, 2e-3), "haversine": (1e-3, 1e-3)}
+       "symmetric_kullback_liebler": (1e-3, 2e-3), "haversine": (1e-3, 1e-3), "true_angular": (1e-3, 1e-3)}
 
 
 def general(ctx, rounds):
@@ -276,7 +276,7 @@ def run(ctx):
         "identity d(x,x)=0 is required within the same accuracy (hellinger 2e-3, cosine/correlation 5e-4 x scale); true_angular reports a similarity "
         "(identical inputs get its closest value 1.0)",
         "distribution metrics are evaluated on non-negative vectors with positive mass; transport metrics are C10",
-        "spearmanr, circular_kantorovich, tsss, true_angular: symmetry / NaN / identity laws only (no independent closed form here)",
+        "circular_kantorovich, tsss: symmetry / NaN / identity laws only (no independent closed form here); spearmanr is compared with the correlation distance of independently computed average ranks, true_angular with 1 - angle/pi where it is not saturated",
     ]
     ctx.notes["rule"] = ("binary: all pairs of 0/1 vectors of every dimension up to the bound x 10 metrics against the model's exact fractions; dense: "
                          "structured float32 vectors (identical, multiples, zero, tiny/huge magnitudes, near-identical, sparse supports, ~1e5 values) "
